@@ -13,7 +13,8 @@ EXPLANATION = (
     "take_last_error_address, pop the handler context) and the error edge pushes that context; "
     "(R4) GOSUB/RETURN stack ownership; (R5) register frames vs. user jumps; (R6) the error arm "
     "of the fetch-execute loop restores the structures a failing statement had opened; (R7) no arm of "
-    "interpret_one stores its jump target before its last failure point; (R8) label tables; (R9) in the generator's statement dispatcher no Statement variant emits an instruction on a path that has not recorded the statement's address, so every statement kind that can fail is a resume point.")
+    "interpret_one stores its jump target before its last failure point; (R8) label tables; (R9) in the generator's statement dispatcher no Statement variant emits an instruction on a path that has not recorded the statement's address, so every statement kind that can fail is a resume point."
+    " (R13) for every part of a construct that can fail at run time, the nearest statement mark before it in emission order leads to it in execution order (the emitted code of every template path is walked with label names as terms): RESUME executes the failing part of the statement again instead of leaving or re-entering the construct. (R11, extended) RESUME label cuts the VM stacks back to the depths recorded by the outermost active call.")
 NOT_DECIDED = [
     "that control arrives exactly where written for every program layout (value-level addresses)",
     "RESUME re-executes the *same* statement (depends on the statement-address search, run time)",
